@@ -91,11 +91,13 @@ CHECKS = {
     "C13": ("model-based history PBT + generated thread schedules (harness owns the schedule)",
             "Generated operation sequences on shared wallet/node objects checked against stateless recomputation on fresh "
             "objects; 2-4 threads interleaved at line granularity by a settrace scheduler driven by a generated choice "
-            "list; free-running threads in the thorough tier.", "5/C13"),
+            "list; free-running threads in the thorough tier; a second wallet of the other network on the shared root; one "
+            "250..255-level derive_path request from a caller 180 frames below the recursion limit.", "5/C13"),
     "C14": ("differential PBT full wallet vs watch-only wallet + object-graph scan",
             "Export nodes at depth 0..5 under all public versions of the network, normal sub-paths, five address kinds; "
             "every private request must raise or be None; the watch-only object graph is scanned for private scalars; "
-            "full-wallet activity precedes the watch-only requests in the same process; export depths up to 251; bulk "
+            "full-wallet activity precedes the watch-only requests in the same process; export depths up to 254; exported "
+            "account nodes must refuse bip44/49/84(account); bulk "
             "children straddling 2^31; full vs watch-only agreement on invalid children under a scripted PRF; watch-only "
             "wallets built from a stream positioned inside back-to-back keys; threads on one watch-only wallet.", "5/C14"),
     "C15": ("PBT with independent secret-set oracle over every leaf of the filtered output",
